@@ -45,12 +45,12 @@ the resize scan at the resized area). **search** (round 5): see C17.search; judg
 "C12": """*As built (round 2).* **iterate**: the runner is interpreted per class of what the hook returned {Handled, Unhandled,
 Err} x {execution finished meanwhile or not}: Err ends the chain with the error, Handled or finished ends it with Ok,
 Unhandled goes on to the next hook. **guard** interprets private `&self` helpers inline (an extracted guard is the
-same guard). Round 5: the vector a registration pushes to is found by interpreting the public registration API with its private helpers inline; the running-guard is judged at the crate-visible entry points that reach a function mutating the hook table; awaiting a local `async fn` runs its body, so a runner or a hook phase moved into an async helper is the same code.""",
+same guard). Round 5: the vector a registration pushes to is found by interpreting the public registration API with its private helpers inline; the running-guard is judged at the crate-visible entry points that reach a function mutating the hook table; awaiting a local `async fn` runs its body, so a runner or a hook phase moved into an async helper is the same code. **lookup** (round 8): while a code of mnemonic M is handled, every query of the hook table (the role function or the map itself) has the constant key M (seeded change S80).""",
 "C20": """*As built.* **sources** accepts rand calls in closures of the two seeding functions and in the pipe() hook (found by
 the syscall number it selects); **reads** is conservative by design: any register read in `step` itself other than RIP
 is reported (seeded change S20 printed `used_registers()` into the error text); the same holds for the cone that builds
 error texts and traces (byte accessors, fetch, decoder front end, the error-hint builder, `trace`, `call_stack`,
-`resolve_symbol`): a call-graph who-may-call rule with the register argument resolved to a constant (seeded change S36). Round 5: the observable cone follows formatting arguments (outside `debug_log!`) to the crate's own `Display` / `Debug` / `LowerHex` impls of the types named in the argument, so hash-map iteration inside a `fmt` that an error text prints is reported (seeded change S57).""",
+`resolve_symbol`): a call-graph who-may-call rule with the register argument resolved to a constant (seeded change S36). Round 5: the observable cone follows formatting arguments (outside `debug_log!`) to the crate's own `Display` / `Debug` / `LowerHex` impls of the types named in the argument, so hash-map iteration inside a `fmt` that an error text prints is reported (seeded change S57). Round 8: thread-locals, atomics and locks on statics reached from non-glue code are process-level mutable state shared by all machines (seeded change S83); the immutable lazy_static tables are not matched.""",
 "C03": """*As built.* `target` additionally requires every register, address and memory term the target is computed from to be
 an *entry-state* version (read before the handler's first write): CALL r/m64 that resolves its operand after the push
 is reported (seeded change S02). **rcx** (round 5) is decided per representative value of RCX (zero; only the low / only the high half zero; single low, middle and top bits; all ones): the tests a path made on any view of RCX are evaluated, the consistent paths must take the branch exactly when the architectural counter (RCX or ECX) is zero.""",
@@ -72,7 +72,7 @@ the aliasing of each of the 68 views x 8 accessors by bit provenance whatever th
 (HashSet lookup, `matches!`, a range over iced's encoding order: `RangeInclusive::contains` and derived comparisons on
 field-less enum constants are summarised by discriminant). **bits** (round 5) judges the final value of the parent's slot on every success path, including paths that store nothing, modulo the bit equalities the path has established by comparing values: an elided write is accepted exactly when the path shows the register already holds the architectural result (seeded change S54 and its corrected form).""",
 "C11": """*As built.* Added `end`: `code_end_addr` = `code_start_addr + code.len()` in the constructor (affine), independent of
-the initial RIP (seeded change S05).""",
+the initial RIP (seeded change S05). Round 8: **once** also requires that an Ok return after RIP was advanced has dispatched the instruction (a stop from a before hook does not end the step early; seeded change S79). `end` reads the constructor's result as a struct expression or as stores.""",
 "C13": """*As built (round 2).* The hook closure is interpreted for the 8 classes {first use, heap exists} x {p = 0,
 0 < p < base, p = base, p > base}; a comparison oracle answers every comparison among 0, p, `brk_start` and the
 allocator's result (including the overflow flag of `checked_sub`). query: class p = 0 returns base + current length and
@@ -94,7 +94,7 @@ boundary for all 4 096 residues and representative page counts admitted by the p
 **others** (round 3): a program header decided not to be PT_LOAD changes neither permissions nor bytes of an area it did
 not create itself (seeded change S33, PT_GNU_RELRO at a PT_LOAD's address). **symbols** (round 5) also orders the
 stores: a name that is not read from the string table (the synthetic `_start`) is never stored after the file's symbols
-unless the slot was tested first, so it cannot replace the file's own symbol at the entry address (seeded change S51).""",
+unless the slot was tested first, so it cannot replace the file's own symbol at the entry address (seeded change S51). **load** (round 7) also judges headers that are passed over before their `p_type` is decided: nothing mapped and the path goes on → the tests that let it go may only concern `p_vaddr` (seeded change S72).""",
 "C16": """*As built (round 2).* **arith** additionally carries relational slice/copy obligations (`bound <= length` must be
 tied on the path; seeded change S17: `data[..content.len()]` on a `vec![0; memsz]`), and **alloc** treats `vec![e; n]` like
 the zero-fill primitive. **alloc** (round 5) decides per allocation whether the size is bounded from above on the path:
@@ -109,7 +109,7 @@ function's result (the search goes on) unless the very same (start, size) range 
 `call_stack()`: a check on machine state (a vector length, a level, an address) is reported unless the path establishes
 it by a dominating comparison or, for `len(X) - k`, by k elements already taken from an iterator over X. **pair** (round 4)
 also interprets the handlers with failing guest memory accesses: a transfer that faults before RIP is written leaves no
-trace entry and no call-stack change (seeded change S45).""",
+trace entry and no call-stack change (seeded change S45). Round 8: the trace recorder reads RIP for the source address, so on every taken path the trace event precedes the first RIP write (seeded change S82).""",
 "C19": """*As built (round 2).* Added **slices**: the 20 slice/index/copy sites of the cone are either inside the three
 bounds-analysed accessors (decided for all endpoint orderings by C08.bounds + C08.invariant) or carry a relational
 obligation discharged on every path of their function (pipe read: min(); trace: loop guard; mem_read_8: constant below
